@@ -44,7 +44,7 @@ var (
 	opts    = [][][2]string{{{"urgency", "low"}}, {{"urgency", "medium"}, {"binary-only", "yes"}, {"x-origin", "vendor=acme"}}}
 	bodies  = [][]string{
 		{"  * change"},
-		{"  * first change", "", "  * second change"},
+		{"  * first change", "", "  * second change", "  ", "  * third change after an indentation-only line"},
 		{"  * change with sub-items:", "    - item one", "    - item two"},
 	}
 	zones = []string{"+0000", "-0700"}
@@ -438,7 +438,7 @@ func main() {
 		sel = fmt.Sprintf("all with <=2 entries and %d seeded samples with 3 entries", limit3)
 	}
 	out := map[string]interface{}{
-		"bound": fmt.Sprintf("entry-list models: 1..3 entries x per entry {1 | 3 options, one value containing '='} (one maintainer containing '--') x {unstable | unstable testing} x 3 body shapes (one line; two lines around an empty line; indented sub-items) x zone {+0000,-0700}, "+
+		"bound": fmt.Sprintf("entry-list models: 1..3 entries x per entry {1 | 3 options, one value containing '='} (one maintainer containing '--') x {unstable | unstable testing} x 3 body shapes (one line; three lines around an empty line and an indentation-only line; indented sub-items) x zone {+0000,-0700}, "+
 			"x blank-line runs 1..2 between entries x final newline present/absent = %d renderings, each parsed with Parse and with a ParseOne loop and compared field by field with the model; "+
 			"every prefix (cut at every byte) of %d renderings (%s) = %d distinct prefixes; %d malformed variants (%d mutations: trailer with single space, bad weekday, bad month, no date, header without parentheses; applied to each entry position of those renderings)",
 			len(all), len(trunc), sel, tot[1].distinct, tot[2].distinct, len(mutations)),
